@@ -35,6 +35,12 @@ PAIRS = [
     (S + "read_path_run_props::node_property_in_run", S + "read_path_run_props::edge_property_in_run", NE),
     (S + "read_path_property_store::read_node_property_from_store", S + "read_path_property_store::read_edge_property_from_store", NE),
     (S + "read_path_property_store::extend_node_properties_from_store", S + "read_path_property_store::extend_edge_properties_from_store", NE),
+    ("IMPL:nervusdb_api::GraphSnapshot|nervusdb_storage::api::StorageSnapshot|node_property", "IMPL:nervusdb_api::GraphSnapshot|nervusdb_storage::api::StorageSnapshot|edge_property", NE),
+    ("IMPL:nervusdb_api::GraphSnapshot|nervusdb_storage::api::StorageSnapshot|node_properties", "IMPL:nervusdb_api::GraphSnapshot|nervusdb_storage::api::StorageSnapshot|edge_properties", NE),
+    ("IMPL:nervusdb_api::GraphSnapshot|nervusdb_storage::api::StorageSnapshot|neighbors", "IMPL:nervusdb_api::GraphSnapshot|nervusdb_storage::api::StorageSnapshot|incoming_neighbors", DIR),
+    (S + "snapshot::Snapshot::neighbors", S + "snapshot::Snapshot::incoming_neighbors", DIR),
+    (S + "snapshot::Snapshot::node_property", S + "snapshot::Snapshot::edge_property", NE),
+    (S + "snapshot::Snapshot::node_properties", S + "snapshot::Snapshot::edge_properties", NE),
 ]
 
 # features that legitimately exist on one side only (one line of reason each)
@@ -44,7 +50,14 @@ EXCEPTIONS = {}
 def run(ctx):
     F = ctx.facts
     ctx.rule("C06.1", "mirror implementations of the read overlay have equal feature sets under src<->dst / node<->edge renaming")
+    def resolve(x):
+        if x.startswith("IMPL:"):
+            tr, ty, m = x[5:].split("|")
+            return F.impl_method(tr, ty, m) or x
+        return x
+
     for a, b, rn in PAIRS:
+        a, b = resolve(a), resolve(b)
         ba = ctx.body(a)
         bb = ctx.body(b)
         only_a, only_b, total = siblings.compare(F, ba, bb, rn)
@@ -53,6 +66,9 @@ def run(ctx):
             # an edge key is a composite (src, rel, dst) where a node id is a scalar: its field reads have no node-side mirror
             only_a = [x for x in only_a if not (x[0] == "field" and x[2] == "nervusdb_api::EdgeKey")]
             only_b = [x for x in only_b if not (x[0] == "field" and x[2] == "nervusdb_api::EdgeKey")]
+            # the API edge key is converted to the storage key (identity on the node side, where ids are scalars)
+            only_a = [x for x in only_a if not (x[0] == "call" and "read_path_convert::api_" in x[1])]
+            only_b = [x for x in only_b if not (x[0] == "call" and "read_path_convert::api_" in x[1])]
         only_a = [x for x in only_a if tuple(x) not in exc]
         only_b = [x for x in only_b if tuple(x) not in exc]
         ctx.instance("C06.1", "%s ~ %s: %d features, only-left=%d only-right=%d" % (a.split("::", 1)[1], b.split("::", 1)[1], total, len(only_a), len(only_b)))
@@ -60,4 +76,4 @@ def run(ctx):
         ctx.oblige(ok, "C06.1", "%s~%s" % (a, b),
                    "mirror implementations differ: only in %s: %s; only in %s: %s" % (a.split("::")[-2:], only_a[:6], b.split("::")[-2:], only_b[:6]),
                    ba.file, sample={"left": a, "right": b, "only_left": only_a[:10], "only_right": only_b[:10], "features": total})
-    ctx.floor("C06.1", "mirror pairs", len(ctx.instances["C06.1"]), 16)
+    ctx.floor("C06.1", "mirror pairs", len(ctx.instances["C06.1"]), 22)
